@@ -511,6 +511,17 @@ func c13(r *rt.Run) {
 		if !r.Thorough() {
 			fams = append(fams, fam{"single-atom-deep", &c13Cfg{one, oneN, 0, scale}, small, 4})
 		}
+		if scale == 1 {
+			// deep histories with repetition over few intervals that share start points: reaches every
+			// shape of a 6-node tree (equal starts on both sides of a rotation) and re-adds exact duplicates
+			eq := []iv{{2, 3}, {2, 4}, {2, 5}, {1, 1}, {0, 0}, {3, 3}}
+			d := 6
+			if r.Thorough() {
+				eq = append(eq, iv{2, 2}, iv{1, 5})
+				d = 7
+			}
+			fams = append(fams, fam{"single-atom-equal-starts-deep", &c13Cfg{one, oneN, 0, scale}, eq, d})
+		}
 		if scale != 1 && !r.Thorough() {
 			continue
 		}
@@ -574,13 +585,19 @@ func c13(r *rt.Run) {
 				ops[i] = c13Op{0, set[j]}
 			}
 			c13Node(r, cfg, ops, fmt.Sprintf("perm-set-%d", si))
+			// the same order followed by a second Add of every interval: each must be refused as a duplicate
+			dup := append([]c13Op{}, ops...)
+			for _, i := range set {
+				dup = append(dup, c13Op{0, i})
+			}
+			c13Node(r, cfg, dup, fmt.Sprintf("perm-set-%d-then-duplicates", si))
 			r.Add("distinct_nontrivial", 1)
 		})
 	}
 	// non-trivial count for the sequence families: histories with >= 2 insertions
 	r.Add("distinct_nontrivial", r.Get("states")/2)
 	r.Finish("every insertion sequence up to depth d over 34 intervals on a 6-point nanosecond timeline (also scaled to seconds), single atom / three atoms / hash-colliding atoms / per-atom limits 1-3, " +
-		"and every insertion order of fixed 7-8 interval sets; after each history all point/range/scan queries, ContainsAt, count, then Coalesce and the same observers; the exported IntervalTree is driven alongside; " +
+		"every sequence up to depth 6 (thorough 7) over 6 (8) intervals sharing start points, and every insertion order of fixed 7-8 interval sets, each also followed by a second Add of every interval; after each history all point/range/scan queries, ContainsAt, count, then Coalesce and the same observers; the exported IntervalTree is driven alongside; " +
 		"non-trivial (approx. lower bound) = permutation histories + half of the sequence histories (those with >= 2 insertions are > 95%)")
 }
 
